@@ -889,6 +889,11 @@ class PDFFont:
         self.fontname = resolve1(descriptor.get("FontName", "unknown"))
         if isinstance(self.fontname, PSLiteral):
             self.fontname = literal_name(self.fontname)
+        elif isinstance(self.fontname, bytes):
+            self.fontname = self.fontname.decode("latin1")
+        elif not isinstance(self.fontname, str):
+            log.warning("Invalid /FontName in font descriptor: %r", self.fontname)
+            self.fontname = "unknown"
         self.flags = int_value(descriptor.get("Flags", 0))
         self.ascent = num_value(descriptor.get("Ascent", 0))
         self.descent = num_value(descriptor.get("Descent", 0))
